@@ -94,6 +94,20 @@ impl ClosedPort {
     }
 }
 
+impl ClosedPort {
+    /// start listening on the very socket that kept the port closed
+    pub fn into_listener(self) -> std::net::TcpListener {
+        use std::os::unix::io::FromRawFd;
+        unsafe {
+            let rc = libc::listen(self.fd, 16);
+            assert_eq!(rc, 0, "listen");
+            let l = std::net::TcpListener::from_raw_fd(self.fd);
+            std::mem::forget(self);
+            l
+        }
+    }
+}
+
 impl Drop for ClosedPort {
     fn drop(&mut self) {
         unsafe {
